@@ -1332,6 +1332,507 @@ pub proof fn lemma_ixl_cases<P: Prefix, L, R>(tl: Seq<Node<P, L>>, tr: Seq<Node<
 
 // ---- end of the lemma_ixl family ----
 
+// ---- difference (C07, C08): regions without left-view nodes are dropped; right-view nodes stay covered as far as they cover a left-view node ----
+
+#[verifier::opaque]
+pub open spec fn ents_cover_d<P: Prefix, L, R>(tl: Seq<Node<P, L>>, tr: Seq<Node<P, R>>, xa: Seq<bool>, xb: Seq<bool>, z: Seq<bool>, st: bool, es: Seq<Ent>) -> bool {
+    &&& (forall|n: int| #![trigger tlive(tl).contains(n)] vin(tl, xa, n) && in_reg(z, st, kb(tl, n)) ==> exists|k: int| 0 <= k < es.len() && pre(ent_key(tl, tr, #[trigger] es[k]), kb(tl, n)))
+    &&& (forall|m: int, n: int| #![trigger tlive(tr).contains(m), tlive(tl).contains(n)] vin(tr, xb, m) && vin(tl, xa, n) && pre(kb(tr, m), kb(tl, n)) && in_reg(z, st, kb(tr, m))
+            ==> exists|k: int| 0 <= k < es.len() && pre(ent_key(tl, tr, #[trigger] es[k]), kb(tr, m)))
+}
+
+pub open spec fn no_only_r(es: Seq<Ent>) -> bool {
+    forall|k: int| 0 <= k < es.len() ==> !((#[trigger] es[k]) is OnlyR)
+}
+
+pub open spec fn df_post<P: Prefix, L, R>(tl: Seq<Node<P, L>>, tr: Seq<Node<P, R>>, xa: Seq<bool>, xb: Seq<bool>, z: Seq<bool>, st: bool, es: Seq<Ent>) -> bool {
+    ents_ok(tl, tr, xa, xb, z, st, es) && ents_cover_d(tl, tr, xa, xb, z, st, es) && no_only_r(es)
+}
+
+pub proof fn lemma_ni_df<P: Prefix, L, R>(tl: Seq<Node<P, L>>, tr: Seq<Node<P, R>>, xa: Seq<bool>, xb: Seq<bool>, z: Seq<bool>, st: bool, es: Seq<Ent>)
+    requires ni_post(tl, tr, xa, xb, z, st, es), no_only_r(es)
+    ensures df_post(tl, tr, xa, xb, z, st, es)
+{
+    reveal(ents_cover); reveal(ents_cover_d);
+}
+
+/// the right view has nothing at or below the left node a in this region: a single OnlyL entry
+pub proof fn lemma_df_only_l<P: Prefix, L, R>(tl: Seq<Node<P, L>>, tr: Seq<Node<P, R>>, xa: Seq<bool>, xb: Seq<bool>, z: Seq<bool>, st: bool, a: usize, b: Option<usize>)
+    requires
+        ni_pre(tl, tr, xa, xb, z, st, Some(a), b),
+        b.is_some() ==> incomparable(kb(tl, a as int), kb(tr, b.unwrap() as int)),
+    ensures df_post(tl, tr, xa, xb, z, st, s1(Ent::OnlyL(a)))
+{
+    reveal(ents_ok); reveal(ents_cover_d);
+    let ka = kb(tl, a as int);
+    let es = s1(Ent::OnlyL(a));
+    assert(es[0] == Ent::OnlyL(a));
+    assert forall|m: int| #![trigger tlive(tr).contains(m)] vin(tr, xb, m) implies !pre(ka, kb(tr, m)) by {
+        if pre(ka, kb(tr, m)) {
+            lemma_in_reg_trans(z, st, ka, kb(tr, m));
+            if b.is_some() { lemma_pre_comparable(ka, kb(tr, b.unwrap() as int), kb(tr, m)); }
+        }
+    }
+    assert forall|n: int| #![trigger tlive(tl).contains(n)] vin(tl, xa, n) && in_reg(z, st, kb(tl, n)) implies exists|k: int| 0 <= k < es.len() && pre(ent_key(tl, tr, #[trigger] es[k]), kb(tl, n)) by {
+        assert(pre(ent_key(tl, tr, es[0]), kb(tl, n)));
+    }
+    assert forall|m: int, n: int| #![trigger tlive(tr).contains(m), tlive(tl).contains(n)] vin(tr, xb, m) && vin(tl, xa, n) && pre(kb(tr, m), kb(tl, n)) && in_reg(z, st, kb(tr, m))
+            implies exists|k: int| 0 <= k < es.len() && pre(ent_key(tl, tr, #[trigger] es[k]), kb(tr, m)) by {
+        // impossible: m lies below b, n below a (n is in the region as well), and a, b are incomparable
+        lemma_in_reg_trans(z, st, kb(tr, m), kb(tl, n));
+        if b.is_some() {
+            lemma_pre_trans(kb(tr, b.unwrap() as int), kb(tr, m), kb(tl, n));
+            lemma_pre_comparable(ka, kb(tr, b.unwrap() as int), kb(tl, n));
+        }
+    }
+}
+
+/// nothing of the left view in the region: nothing to push
+pub proof fn lemma_df_none<P: Prefix, L, R>(tl: Seq<Node<P, L>>, tr: Seq<Node<P, R>>, xa: Seq<bool>, xb: Seq<bool>, z: Seq<bool>, st: bool, b: Option<usize>)
+    requires ni_pre::<P, L, R>(tl, tr, xa, xb, z, st, None, b)
+    ensures df_post(tl, tr, xa, xb, z, st, Seq::<Ent>::empty())
+{
+    reveal(ents_ok); reveal(ents_cover_d);
+    assert forall|m: int, n: int| #![trigger tlive(tr).contains(m), tlive(tl).contains(n)] vin(tr, xb, m) && vin(tl, xa, n) && pre(kb(tr, m), kb(tl, n)) && in_reg(z, st, kb(tr, m)) implies false by {
+        lemma_in_reg_trans(z, st, kb(tr, m), kb(tl, n));
+    }
+}
+
+/// all cases of the difference's next_indices at once
+pub open spec fn df_cases<P: Prefix, L, R>(tl: Seq<Node<P, L>>, tr: Seq<Node<P, R>>, xa: Seq<bool>, xb: Seq<bool>, z: Seq<bool>, st: bool, a: Option<usize>, b: Option<usize>) -> bool {
+    match (a, b) {
+        (None, _) => df_post(tl, tr, xa, xb, z, st, Seq::<Ent>::empty()),
+        (Some(a), None) => df_post(tl, tr, xa, xb, z, st, s1(Ent::OnlyL(a))),
+        (Some(a), Some(b)) => {
+            let ka = kb(tl, a as int); let kbb = kb(tr, b as int);
+            (ka =~= kbb ==> df_post(tl, tr, xa, xb, z, st, s1(Ent::Both(a, b))))
+            && (spre(ka, kbb) ==> df_post(tl, tr, xa, xb, z, st, s1(Ent::FirstL(a, b))))
+            && (spre(kbb, ka) ==> df_post(tl, tr, xa, xb, z, st, s1(Ent::FirstR(a, b))))
+            && (incomparable(ka, kbb) ==> df_post(tl, tr, xa, xb, z, st, s1(Ent::OnlyL(a))))
+        },
+    }
+}
+
+pub proof fn lemma_df_cases<P: Prefix, L, R>(tl: Seq<Node<P, L>>, tr: Seq<Node<P, R>>, a: Option<usize>, b: Option<usize>)
+    ensures forall|xa: Seq<bool>, xb: Seq<bool>, z: Seq<bool>, st: bool| #[trigger] ni_pre(tl, tr, xa, xb, z, st, a, b) ==> df_cases(tl, tr, xa, xb, z, st, a, b)
+{
+    assert forall|xa: Seq<bool>, xb: Seq<bool>, z: Seq<bool>, st: bool| #[trigger] ni_pre(tl, tr, xa, xb, z, st, a, b) implies df_cases(tl, tr, xa, xb, z, st, a, b) by {
+        if a.is_none() {
+            lemma_df_none(tl, tr, xa, xb, z, st, b);
+        } else if b.is_none() {
+            lemma_df_only_l(tl, tr, xa, xb, z, st, a.unwrap(), None);
+        } else {
+            let a_ = a.unwrap(); let b_ = b.unwrap();
+            let ka = kb(tl, a_ as int); let kbb = kb(tr, b_ as int);
+            if ka =~= kbb { lemma_ni_both(tl, tr, xa, xb, z, st, a_, b_); assert(s1(Ent::Both(a_, b_))[0] == Ent::Both(a_, b_)); lemma_ni_df(tl, tr, xa, xb, z, st, s1(Ent::Both(a_, b_))); }
+            if spre(ka, kbb) { lemma_ni_first_l(tl, tr, xa, xb, z, st, a_, b_); assert(s1(Ent::FirstL(a_, b_))[0] == Ent::FirstL(a_, b_)); lemma_ni_df(tl, tr, xa, xb, z, st, s1(Ent::FirstL(a_, b_))); }
+            if spre(kbb, ka) { lemma_ni_first_r(tl, tr, xa, xb, z, st, a_, b_); assert(s1(Ent::FirstR(a_, b_))[0] == Ent::FirstR(a_, b_)); lemma_ni_df(tl, tr, xa, xb, z, st, s1(Ent::FirstR(a_, b_))); }
+            if incomparable(ka, kbb) { lemma_df_only_l(tl, tr, xa, xb, z, st, a_, b); }
+        }
+    }
+}
+
+/// the two halves below x (difference)
+pub proof fn lemma_df_concat<P: Prefix, L, R>(tl: Seq<Node<P, L>>, tr: Seq<Node<P, R>>, xa: Seq<bool>, xb: Seq<bool>, x: Seq<bool>, csr: Seq<Ent>, csl: Seq<Ent>)
+    requires df_post(tl, tr, xa, xb, x.push(true), false, csr), df_post(tl, tr, xa, xb, x.push(false), false, csl)
+    ensures df_post(tl, tr, xa, xb, x, true, csr + csl)
+{
+    reveal(ents_ok); reveal(ents_cover_d);
+    lemma_half_region(x, true);
+    lemma_half_region(x, false);
+    let cs = csr + csl;
+    assert forall|k: int| 0 <= k < cs.len() implies ent_ok(tl, tr, xa, xb, #[trigger] cs[k]) && in_reg(x, true, ent_key(tl, tr, cs[k])) && !(cs[k] is OnlyR) by {
+        if k < csr.len() { assert(cs[k] == csr[k]); assert(pre(x.push(true), ent_key(tl, tr, csr[k]))); }
+        else { assert(cs[k] == csl[k - csr.len()]); assert(pre(x.push(false), ent_key(tl, tr, csl[k - csr.len()]))); }
+    }
+    assert forall|k: int, j: int| 0 <= k < j < cs.len() implies
+            incomparable(ent_key(tl, tr, #[trigger] cs[k]), ent_key(tl, tr, #[trigger] cs[j])) && lex_lt(ent_key(tl, tr, cs[j]), ent_key(tl, tr, cs[k])) by {
+        if j < csr.len() { assert(cs[k] == csr[k] && cs[j] == csr[j]); }
+        else if k >= csr.len() { assert(cs[k] == csl[k - csr.len()] && cs[j] == csl[j - csr.len()]); }
+        else {
+            assert(cs[k] == csr[k] && cs[j] == csl[j - csr.len()]);
+            assert(pre(x.push(true), ent_key(tl, tr, csr[k])) && pre(x.push(false), ent_key(tl, tr, csl[j - csr.len()])));
+            lemma_lex_children(x, ent_key(tl, tr, csl[j - csr.len()]), ent_key(tl, tr, csr[k]));
+        }
+    }
+    assert forall|n: int| #![trigger tlive(tl).contains(n)] vin(tl, xa, n) && spre(x, kb(tl, n)) implies exists|k: int| 0 <= k < cs.len() && pre(ent_key(tl, tr, #[trigger] cs[k]), kb(tl, n)) by {
+        if kb(tl, n)[x.len() as int] {
+            assert(pre(x.push(true), kb(tl, n)));
+            let k1 = choose|k: int| 0 <= k < csr.len() && pre(ent_key(tl, tr, #[trigger] csr[k]), kb(tl, n));
+            assert(cs[k1] == csr[k1]);
+        } else {
+            assert(pre(x.push(false), kb(tl, n)));
+            let k1 = choose|k: int| 0 <= k < csl.len() && pre(ent_key(tl, tr, #[trigger] csl[k]), kb(tl, n));
+            assert(cs[csr.len() + k1] == csl[k1]);
+        }
+    }
+    assert forall|m: int, n: int| #![trigger tlive(tr).contains(m), tlive(tl).contains(n)] vin(tr, xb, m) && vin(tl, xa, n) && pre(kb(tr, m), kb(tl, n)) && spre(x, kb(tr, m))
+            implies exists|k: int| 0 <= k < cs.len() && pre(ent_key(tl, tr, #[trigger] cs[k]), kb(tr, m)) by {
+        if kb(tr, m)[x.len() as int] {
+            assert(pre(x.push(true), kb(tr, m)));
+            let k1 = choose|k: int| 0 <= k < csr.len() && pre(ent_key(tl, tr, #[trigger] csr[k]), kb(tr, m));
+            assert(cs[k1] == csr[k1]);
+        } else {
+            assert(pre(x.push(false), kb(tr, m)));
+            let k1 = choose|k: int| 0 <= k < csl.len() && pre(ent_key(tl, tr, #[trigger] csl[k]), kb(tr, m));
+            assert(cs[csr.len() + k1] == csl[k1]);
+        }
+    }
+}
+
+// ---- difference: one-sided descents ----
+// The lemmas of this block use lemma_fr_* (mirrored family, defined at the end of the file).
+
+/// FirstL(l, r), l has two children, r on side s: es1 describes the half region on r's side, the other child of l is an OnlyL entry
+pub proof fn lemma_dfl_two<P: Prefix, L, R>(tl: Seq<Node<P, L>>, tr: Seq<Node<P, R>>, xa: Seq<bool>, xb: Seq<bool>, l: usize, r: usize, s: bool, es1: Seq<Ent>)
+    requires
+        twf(tl), twf(tr), ent_ok(tl, tr, xa, xb, Ent::FirstL(l, r)), chd(tl, l as int, s).is_some(), chd(tl, l as int, !s).is_some(),
+        kb(tr, r as int)[kb(tl, l as int).len() as int] == s,
+        df_post(tl, tr, xa, xb, kb(tl, l as int).push(s), false, es1),
+    ensures
+        df_post(tl, tr, xa, xb, kb(tl, l as int), true, (if s { es1.push(Ent::OnlyL(chd(tl, l as int, false).unwrap())) } else { es1.insert(0, Ent::OnlyL(chd(tl, l as int, true).unwrap())) })),
+{
+    lemma_fl_two_ok(tl, tr, xa, xb, l, r, s, es1);
+    lemma_fl_facts(tl, tr, xa, xb, l, r);
+    reveal(ents_cover_d);
+    let x = kb(tl, l as int);
+    lemma_half_region(x, s);
+    let zs = x.push(s);
+    let o = chd(tl, l as int, !s).unwrap();
+    let eo = Ent::OnlyL(o);
+    let es = if s { es1.push(eo) } else { es1.insert(0, eo) };
+    assert forall|k: int| 0 <= k < es.len() implies !((#[trigger] es[k]) is OnlyR) by {
+        if s { if k < es1.len() { assert(es[k] == es1[k]); } } else { if k > 0 { assert(es[k] == es1[k - 1]); } }
+    }
+    assert forall|n: int| #![trigger tlive(tl).contains(n)] vin(tl, xa, n) && spre(x, kb(tl, n)) implies exists|k: int| 0 <= k < es.len() && pre(ent_key(tl, tr, #[trigger] es[k]), kb(tl, n)) by {
+        if kb(tl, n)[x.len() as int] == s {
+            assert(pre(zs, kb(tl, n)));
+            let k1 = choose|k: int| 0 <= k < es1.len() && pre(ent_key(tl, tr, #[trigger] es1[k]), kb(tl, n));
+            if s { assert(es[k1] == es1[k1]); } else { assert(es[k1 + 1] == es1[k1]); }
+        } else {
+            assert(chd(tl, l as int, kb(tl, n)[x.len() as int]).is_some());
+            if s { assert(es[es1.len() as int] == eo); assert(pre(ent_key(tl, tr, es[es1.len() as int]), kb(tl, n))); }
+            else { assert(es[0] == eo); assert(pre(ent_key(tl, tr, es[0]), kb(tl, n))); }
+        }
+    }
+    assert forall|m: int, n: int| #![trigger tlive(tr).contains(m), tlive(tl).contains(n)] vin(tr, xb, m) && vin(tl, xa, n) && pre(kb(tr, m), kb(tl, n)) && spre(x, kb(tr, m))
+            implies exists|k: int| 0 <= k < es.len() && pre(ent_key(tl, tr, #[trigger] es[k]), kb(tr, m)) by {
+        lemma_pre_refl(x);
+        assert(pre(kb(tr, r as int), kb(tr, m)));
+        assert(kb(tr, m)[x.len() as int] == s);
+        assert(pre(zs, kb(tr, m)));
+        let k1 = choose|k: int| 0 <= k < es1.len() && pre(ent_key(tl, tr, #[trigger] es1[k]), kb(tr, m));
+        if s { assert(es[k1] == es1[k1]); } else { assert(es[k1 + 1] == es1[k1]); }
+    }
+}
+
+pub open spec fn dfl_cases<P: Prefix, L, R>(tl: Seq<Node<P, L>>, tr: Seq<Node<P, R>>, xa: Seq<bool>, xb: Seq<bool>, l: usize, r: usize) -> bool {
+    let x = kb(tl, l as int);
+    let cl = chd(tl, l as int, false); let cr = chd(tl, l as int, true);
+    let s = kb(tr, r as int)[x.len() as int];
+    &&& (cl.is_none() && cr.is_none() ==> df_post(tl, tr, xa, xb, x, true, Seq::<Ent>::empty()))
+    &&& (cl.is_none() && cr.is_some() ==> ni_pre(tl, tr, xa, xb, x, true, cr, Some(r)))
+    &&& (cl.is_some() && cr.is_none() ==> ni_pre(tl, tr, xa, xb, x, true, cl, Some(r)))
+    &&& (cl.is_some() && cr.is_some() ==> ni_pre(tl, tr, xa, xb, x.push(s), false, chd(tl, l as int, s), Some(r))
+            && (forall|es1: Seq<Ent>| #[trigger] df_post(tl, tr, xa, xb, x.push(s), false, es1) ==>
+                    (s ==> df_post(tl, tr, xa, xb, x, true, es1.push(Ent::OnlyL(cl.unwrap()))))
+                    && (!s ==> df_post(tl, tr, xa, xb, x, true, es1.insert(0, Ent::OnlyL(cr.unwrap()))))))
+}
+
+pub proof fn lemma_dfl_cases<P: Prefix, L, R>(tl: Seq<Node<P, L>>, tr: Seq<Node<P, R>>, xa: Seq<bool>, xb: Seq<bool>, l: usize, r: usize)
+    requires twf(tl), twf(tr), ent_ok(tl, tr, xa, xb, Ent::FirstL(l, r))
+    ensures dfl_cases(tl, tr, xa, xb, l, r)
+{
+    let x = kb(tl, l as int);
+    let cl = chd(tl, l as int, false); let cr = chd(tl, l as int, true);
+    let s = kb(tr, r as int)[x.len() as int];
+    if cl.is_none() && cr.is_none() {
+        reveal(ents_ok); reveal(ents_cover_d);
+        lemma_fl_facts(tl, tr, xa, xb, l, r);
+        assert forall|n: int| #![trigger tlive(tl).contains(n)] vin(tl, xa, n) implies !spre(x, kb(tl, n)) by {
+            if spre(x, kb(tl, n)) { assert(chd(tl, l as int, kb(tl, n)[x.len() as int]).is_some()); }
+        }
+        assert forall|m: int, n: int| #![trigger tlive(tr).contains(m), tlive(tl).contains(n)] vin(tr, xb, m) && vin(tl, xa, n) && pre(kb(tr, m), kb(tl, n)) && spre(x, kb(tr, m)) implies false by {
+            assert(tlive(tl).contains(n));
+        }
+    }
+    if cl.is_none() && cr.is_some() { lemma_fl_one(tl, tr, xa, xb, l, r, true); }
+    if cl.is_some() && cr.is_none() { lemma_fl_one(tl, tr, xa, xb, l, r, false); }
+    if cl.is_some() && cr.is_some() {
+        lemma_fl_two_pre(tl, tr, xa, xb, l, r, s);
+        assert forall|es1: Seq<Ent>| #[trigger] df_post(tl, tr, xa, xb, x.push(s), false, es1) implies
+                    (s ==> df_post(tl, tr, xa, xb, x, true, es1.push(Ent::OnlyL(cl.unwrap()))))
+                    && (!s ==> df_post(tl, tr, xa, xb, x, true, es1.insert(0, Ent::OnlyL(cr.unwrap())))) by {
+            lemma_dfl_two(tl, tr, xa, xb, l, r, s, es1);
+        }
+    }
+}
+
+/// FirstR(l, r), r has two children, l on side s: only the half region on l's side holds left-view nodes
+pub proof fn lemma_dfr_two<P: Prefix, L, R>(tl: Seq<Node<P, L>>, tr: Seq<Node<P, R>>, xa: Seq<bool>, xb: Seq<bool>, l: usize, r: usize, s: bool, es1: Seq<Ent>)
+    requires
+        twf(tl), twf(tr), ent_ok(tl, tr, xa, xb, Ent::FirstR(l, r)),
+        kb(tl, l as int)[kb(tr, r as int).len() as int] == s,
+        df_post(tl, tr, xa, xb, kb(tr, r as int).push(s), false, es1),
+    ensures df_post(tl, tr, xa, xb, kb(tr, r as int), true, es1)
+{
+    reveal(ents_ok); reveal(ents_cover_d);
+    let x = kb(tr, r as int);
+    lemma_half_region(x, s);
+    lemma_pre_refl(x);
+    assert forall|k: int| 0 <= k < es1.len() implies in_reg(x, true, ent_key(tl, tr, #[trigger] es1[k])) by {
+        assert(pre(x.push(s), ent_key(tl, tr, es1[k])));
+    }
+    assert forall|n: int| #![trigger tlive(tl).contains(n)] vin(tl, xa, n) && spre(x, kb(tl, n)) implies exists|k: int| 0 <= k < es1.len() && pre(ent_key(tl, tr, #[trigger] es1[k]), kb(tl, n)) by {
+        assert(pre(kb(tl, l as int), kb(tl, n)));
+        assert(kb(tl, n)[x.len() as int] == s);
+        assert(pre(x.push(s), kb(tl, n)));
+    }
+    assert forall|m: int, n: int| #![trigger tlive(tr).contains(m), tlive(tl).contains(n)] vin(tr, xb, m) && vin(tl, xa, n) && pre(kb(tr, m), kb(tl, n)) && spre(x, kb(tr, m))
+            implies exists|k: int| 0 <= k < es1.len() && pre(ent_key(tl, tr, #[trigger] es1[k]), kb(tr, m)) by {
+        lemma_pre_trans(x, kb(tr, m), kb(tl, n));
+        assert(pre(kb(tl, l as int), kb(tl, n)));
+        assert(kb(tl, n)[x.len() as int] == s);
+        assert(kb(tr, m)[x.len() as int] == kb(tl, n)[x.len() as int]);
+        assert(pre(x.push(s), kb(tr, m)));
+    }
+}
+
+pub open spec fn dfr_cases<P: Prefix, L, R>(tl: Seq<Node<P, L>>, tr: Seq<Node<P, R>>, xa: Seq<bool>, xb: Seq<bool>, l: usize, r: usize) -> bool {
+    let x = kb(tr, r as int);
+    let cl = chd(tr, r as int, false); let cr = chd(tr, r as int, true);
+    let s = kb(tl, l as int)[x.len() as int];
+    &&& (cl.is_none() && cr.is_none() ==> df_post(tl, tr, xa, xb, x, true, s1(Ent::OnlyL(l))))
+    &&& (cl.is_none() && cr.is_some() ==> ni_pre(tl, tr, xa, xb, x, true, Some(l), cr))
+    &&& (cl.is_some() && cr.is_none() ==> ni_pre(tl, tr, xa, xb, x, true, Some(l), cl))
+    &&& (cl.is_some() && cr.is_some() ==> ni_pre(tl, tr, xa, xb, x.push(s), false, Some(l), chd(tr, r as int, s))
+            && (forall|es1: Seq<Ent>| #[trigger] df_post(tl, tr, xa, xb, x.push(s), false, es1) ==> df_post(tl, tr, xa, xb, x, true, es1)))
+}
+
+pub proof fn lemma_dfr_cases<P: Prefix, L, R>(tl: Seq<Node<P, L>>, tr: Seq<Node<P, R>>, xa: Seq<bool>, xb: Seq<bool>, l: usize, r: usize)
+    requires twf(tl), twf(tr), ent_ok(tl, tr, xa, xb, Ent::FirstR(l, r))
+    ensures dfr_cases(tl, tr, xa, xb, l, r)
+{
+    let x = kb(tr, r as int);
+    let cl = chd(tr, r as int, false); let cr = chd(tr, r as int, true);
+    let s = kb(tl, l as int)[x.len() as int];
+    if cl.is_none() && cr.is_none() {
+        lemma_fr_none(tl, tr, xa, xb, l, r);
+        assert(s1(Ent::OnlyL(l))[0] == Ent::OnlyL(l));
+        lemma_ni_df(tl, tr, xa, xb, x, true, s1(Ent::OnlyL(l)));
+    }
+    if cl.is_none() && cr.is_some() { lemma_fr_one(tl, tr, xa, xb, l, r, true); }
+    if cl.is_some() && cr.is_none() { lemma_fr_one(tl, tr, xa, xb, l, r, false); }
+    if cl.is_some() && cr.is_some() {
+        lemma_fr_two_pre(tl, tr, xa, xb, l, r, s);
+        assert forall|es1: Seq<Ent>| #[trigger] df_post(tl, tr, xa, xb, x.push(s), false, es1) implies df_post(tl, tr, xa, xb, x, true, es1) by {
+            lemma_dfr_two(tl, tr, xa, xb, l, r, s, es1);
+        }
+    }
+}
+
+// ---- difference: stack steps, selections, annotations ----
+
+/// view (t, x) stores an entry exactly at key k / stores an entry whose prefix covers k
+pub open spec fn stored_in<P: Prefix, T>(t: Seq<Node<P, T>>, x: Seq<bool>, k: Seq<bool>) -> bool {
+    exists|n: int| #![trigger tlive(t).contains(n)] vin(t, x, n) && kb(t, n) =~= k && t[n].value.is_some()
+}
+pub open spec fn covered_in<P: Prefix, T>(t: Seq<Node<P, T>>, x: Seq<bool>, k: Seq<bool>) -> bool {
+    exists|n: int| #![trigger tlive(t).contains(n)] vin(t, x, n) && pre(kb(t, n), k) && t[n].value.is_some()
+}
+/// the exclusion criterion of difference (cov = false) / covering difference (cov = true)
+pub open spec fn excl<P: Prefix, T>(t: Seq<Node<P, T>>, x: Seq<bool>, cov: bool, k: Seq<bool>) -> bool {
+    if cov { covered_in(t, x, k) } else { stored_in(t, x, k) }
+}
+/// [C07] entries of the left view that are selected by the (covering) difference and still to be delivered
+pub open spec fn dsel<P: Prefix, L, R>(tl: Seq<Node<P, L>>, tr: Seq<Node<P, R>>, xa: Seq<bool>, xb: Seq<bool>, cov: bool, es: Seq<Ent>, n: int) -> bool {
+    rem_l(tl, tr, xa, es, n) && !excl(tr, xb, cov, kb(tl, n))
+}
+pub open spec fn yields_d<P: Prefix, L, R>(tl: Seq<Node<P, L>>, tr: Seq<Node<P, R>>, xa: Seq<bool>, xb: Seq<bool>, cov: bool, es0: Seq<Ent>, es1: Seq<Ent>, x: Seq<bool>) -> bool {
+    &&& (forall|n: int| #![trigger tlive(tl).contains(n)] dsel(tl, tr, xa, xb, cov, es0, n) && !(kb(tl, n) =~= x) ==> lex_lt(x, kb(tl, n)))
+    &&& (forall|n: int| #![trigger tlive(tl).contains(n)] dsel(tl, tr, xa, xb, cov, es1, n) == (dsel(tl, tr, xa, xb, cov, es0, n) && !(kb(tl, n) =~= x)))
+}
+pub open spec fn same_d<P: Prefix, L, R>(tl: Seq<Node<P, L>>, tr: Seq<Node<P, R>>, xa: Seq<bool>, xb: Seq<bool>, cov: bool, es0: Seq<Ent>, es1: Seq<Ent>) -> bool {
+    forall|n: int| #![trigger tlive(tl).contains(n)] dsel(tl, tr, xa, xb, cov, es1, n) == dsel(tl, tr, xa, xb, cov, es0, n)
+}
+pub open spec fn no_d<P: Prefix, L, R>(tl: Seq<Node<P, L>>, tr: Seq<Node<P, R>>, xa: Seq<bool>, xb: Seq<bool>, cov: bool, es: Seq<Ent>) -> bool {
+    forall|n: int| #![trigger tlive(tl).contains(n)] !dsel(tl, tr, xa, xb, cov, es, n)
+}
+/// left-view entries only (what the stack itself guarantees, before the exclusion criterion is applied)
+pub open spec fn yields_l<P: Prefix, L, R>(tl: Seq<Node<P, L>>, tr: Seq<Node<P, R>>, xa: Seq<bool>, es0: Seq<Ent>, es1: Seq<Ent>, x: Seq<bool>) -> bool {
+    &&& (forall|n: int| #![trigger tlive(tl).contains(n)] rem_l(tl, tr, xa, es0, n) && !(kb(tl, n) =~= x) ==> lex_lt(x, kb(tl, n)))
+    &&& (forall|n: int| #![trigger tlive(tl).contains(n)] rem_l(tl, tr, xa, es1, n) == (rem_l(tl, tr, xa, es0, n) && !(kb(tl, n) =~= x)))
+}
+
+/// [C07] one step of a difference traversal: top entry (key x) popped, entries cs for the left-view nodes strictly below x pushed
+pub proof fn lemma_df_step<P: Prefix, L, R>(tl: Seq<Node<P, L>>, tr: Seq<Node<P, R>>, xa: Seq<bool>, xb: Seq<bool>, es: Seq<Ent>, cs: Seq<Ent>)
+    requires
+        ss_ok(tl, tr, xa, xb, es), es.len() > 0, no_only_r(es),
+        df_post(tl, tr, xa, xb, ent_key(tl, tr, es.last()), true, cs),
+    ensures
+        ss_ok(tl, tr, xa, xb, es.drop_last() + cs), no_only_r(es.drop_last() + cs),
+        yields_l(tl, tr, xa, es, es.drop_last() + cs, ent_key(tl, tr, es.last())),
+        kcov(tl, tr, es, ent_key(tl, tr, es.last())),
+        0 <= ucnt(tl, tr, xa, xb, es.drop_last() + cs) < ucnt(tl, tr, xa, xb, es),
+{
+    let e = es.last();
+    let x = ent_key(tl, tr, e);
+    let rest = es.drop_last();
+    let es2 = rest + cs;
+    lemma_stack_replace_ok(tl, tr, xa, xb, es, cs);
+    lemma_ent_at(tl, tr, xa, xb, e);
+    lemma_pre_refl(x);
+    assert(es[es.len() - 1] == e);
+    assert(kcov(tl, tr, es, x));
+    assert forall|k: int| 0 <= k < es2.len() implies !((#[trigger] es2[k]) is OnlyR) by {
+        if k < rest.len() { assert(es2[k] == es[k]); } else { assert(es2[k] == cs[k - rest.len()]); }
+    }
+    assert forall|n: int| #![trigger tlive(tl).contains(n)] rem_l(tl, tr, xa, es2, n) == (rem_l(tl, tr, xa, es, n) && !(kb(tl, n) =~= x)) by {
+        if rem_l(tl, tr, xa, es, n) && !(kb(tl, n) =~= x) && pre(x, kb(tl, n)) {
+            reveal(ents_cover_d);
+            let k1 = choose|k: int| 0 <= k < cs.len() && pre(ent_key(tl, tr, #[trigger] cs[k]), kb(tl, n));
+            assert(es2[rest.len() + k1] == cs[k1]);
+        }
+    }
+    let fl = cov_l(tl, tr, xa, es); let gl = cov_l(tl, tr, xa, es2);
+    let fr = cov_r(tl, tr, xb, es); let gr = cov_r(tl, tr, xb, es2);
+    assert forall|i: int| 0 <= i < tl.len() && #[trigger] gl(i) implies fl(i) by { }
+    assert forall|i: int| 0 <= i < tr.len() && #[trigger] gr(i) implies fr(i) by { }
+    let wl = if ent_l(e).is_some() { ent_l(e).unwrap() as int } else { -1 };
+    let wr = if ent_r(e).is_some() { ent_r(e).unwrap() as int } else { -1 };
+    if ent_l(e).is_some() { assert(fl(wl) && !gl(wl)); }
+    if ent_r(e).is_some() { assert(fr(wr) && !gr(wr)); }
+    lemma_icnt(fl, gl, tl.len() as int, wl);
+    lemma_icnt(fr, gr, tr.len() as int, wr);
+}
+
+/// [C07] covering difference: the top entry (key x) is dropped together with everything below it
+pub proof fn lemma_cd_skip<P: Prefix, L, R>(tl: Seq<Node<P, L>>, tr: Seq<Node<P, R>>, xa: Seq<bool>, xb: Seq<bool>, es: Seq<Ent>)
+    requires ss_ok(tl, tr, xa, xb, es), es.len() > 0, no_only_r(es)
+    ensures
+        ss_ok(tl, tr, xa, xb, es.drop_last()), no_only_r(es.drop_last()),
+        forall|n: int| #![trigger tlive(tl).contains(n)] rem_l(tl, tr, xa, es.drop_last(), n) == (rem_l(tl, tr, xa, es, n) && !pre(ent_key(tl, tr, es.last()), kb(tl, n))),
+        0 <= ucnt(tl, tr, xa, xb, es.drop_last()) < ucnt(tl, tr, xa, xb, es),
+{
+    let e = es.last();
+    let x = ent_key(tl, tr, e);
+    let rest = es.drop_last();
+    let cs = Seq::<Ent>::empty();
+    assert(ents_ok(tl, tr, xa, xb, x, true, cs)) by { reveal(ents_ok); }
+    assert(rest + cs =~= rest);
+    lemma_stack_replace_ok(tl, tr, xa, xb, es, cs);
+    lemma_ent_at(tl, tr, xa, xb, e);
+    lemma_pre_refl(x);
+    let top = es.len() - 1;
+    assert(es[top] == e);
+    assert forall|k: int| 0 <= k < rest.len() implies !((#[trigger] rest[k]) is OnlyR) by { assert(rest[k] == es[k]); }
+    assert forall|k: Seq<bool>| #[trigger] kcov(tl, tr, rest, k) implies !pre(x, k) by {
+        reveal(ents_ok);
+        let j = choose|j: int| 0 <= j < rest.len() && pre(ent_key(tl, tr, #[trigger] rest[j]), k);
+        assert(rest[j] == es[j]);
+        assert(incomparable(ent_key(tl, tr, es[j]), ent_key(tl, tr, es[top])));
+        if pre(x, k) { lemma_pre_comparable(ent_key(tl, tr, es[j]), x, k); }
+    }
+    let fl = cov_l(tl, tr, xa, es); let gl = cov_l(tl, tr, xa, rest);
+    let fr = cov_r(tl, tr, xb, es); let gr = cov_r(tl, tr, xb, rest);
+    assert forall|i: int| 0 <= i < tl.len() && #[trigger] gl(i) implies fl(i) by { }
+    assert forall|i: int| 0 <= i < tr.len() && #[trigger] gr(i) implies fr(i) by { }
+    let wl = if ent_l(e).is_some() { ent_l(e).unwrap() as int } else { -1 };
+    let wr = if ent_r(e).is_some() { ent_r(e).unwrap() as int } else { -1 };
+    assert(kcov(tl, tr, es, x));
+    if ent_l(e).is_some() { assert(fl(wl) && !gl(wl)); }
+    if ent_r(e).is_some() { assert(fr(wr) && !gr(wr)); }
+    lemma_icnt(fl, gl, tl.len() as int, wl);
+    lemma_icnt(fr, gr, tr.len() as int, wr);
+}
+
+/// inside the region described by cs, the only right-view node covering the key of cs[j] is the right node of cs[j] itself
+pub proof fn lemma_between_d<P: Prefix, L, R>(tl: Seq<Node<P, L>>, tr: Seq<Node<P, R>>, xa: Seq<bool>, xb: Seq<bool>, z: Seq<bool>, st: bool, cs: Seq<Ent>, j: int)
+    requires twf(tl), twf(tr), df_post(tl, tr, xa, xb, z, st, cs), 0 <= j < cs.len()
+    ensures
+        ent_ok(tl, tr, xa, xb, cs[j]), in_reg(z, st, ent_key(tl, tr, cs[j])),
+        forall|m: int| #![trigger tlive(tr).contains(m)] vin(tr, xb, m) && pre(kb(tr, m), ent_key(tl, tr, cs[j])) && in_reg(z, st, kb(tr, m)) ==> ent_r(cs[j]).is_some() && ent_r(cs[j]).unwrap() as int == m,
+{
+    reveal(ents_ok); reveal(ents_cover_d);
+    let kc = ent_key(tl, tr, cs[j]);
+    lemma_ent_at(tl, tr, xa, xb, cs[j]);
+    // every entry of a difference stack has a left-view node at or below its key
+    let nj = match cs[j] { Ent::Both(l, _) => l as int, Ent::FirstL(l, _) => l as int, Ent::OnlyL(l) => l as int, Ent::FirstR(l, _) => l as int, Ent::OnlyR(_) => 0int };
+    assert(!(cs[j] is OnlyR));
+    assert(vin(tl, xa, nj) && pre(kc, kb(tl, nj))) by { lemma_pre_refl(kc); }
+    assert forall|m: int| #![trigger tlive(tr).contains(m)] vin(tr, xb, m) && pre(kb(tr, m), kc) && in_reg(z, st, kb(tr, m)) implies ent_r(cs[j]).is_some() && ent_r(cs[j]).unwrap() as int == m by {
+        lemma_pre_trans(kb(tr, m), kc, kb(tl, nj));
+        assert(tlive(tl).contains(nj));
+        let k1 = choose|k: int| 0 <= k < cs.len() && pre(ent_key(tl, tr, #[trigger] cs[k]), kb(tr, m));
+        lemma_pre_trans(ent_key(tl, tr, cs[k1]), kb(tr, m), kc);
+        if k1 < j { assert(incomparable(ent_key(tl, tr, cs[k1]), ent_key(tl, tr, cs[j]))); }
+        if j < k1 { assert(incomparable(ent_key(tl, tr, cs[j]), ent_key(tl, tr, cs[k1]))); }
+        lemma_pre_antisym(kb(tr, m), kc);
+    }
+}
+
+/// [C08] right-view annotation of the entries pushed below a popped entry with key x and annotation lr
+pub proof fn lemma_ann_child_d<'a, P: Prefix, L, R>(tl: Seq<Node<P, L>>, tr: Seq<Node<P, R>>, xa: Seq<bool>, xb: Seq<bool>, x: Seq<bool>, cs: Seq<Ent>, j: int, lr: Option<(&'a P, &'a R)>)
+    requires twf(tl), twf(tr), df_post(tl, tr, xa, xb, x, true, cs), 0 <= j < cs.len(), vlpm(tr, xb, x, lr)
+    ensures vlpm(tr, xb, ent_key(tl, tr, cs[j]), ann(tr, ent_r(cs[j]), lr))
+{
+    let kc = ent_key(tl, tr, cs[j]);
+    lemma_between_d(tl, tr, xa, xb, x, true, cs, j);
+    lemma_ent_at(tl, tr, xa, xb, cs[j]);
+    assert forall|m: int| #![trigger tlive(tr).contains(m)] vin(tr, xb, m) && pre(kb(tr, m), kc) && !pre(kb(tr, m), x) implies spre(x, kb(tr, m)) by {
+        lemma_pre_comparable(kb(tr, m), x, kc);
+    }
+    lemma_lpm_down(tr, xb, x, kc, lr, ent_r(cs[j]));
+}
+
+pub proof fn lemma_ann_init_d<P: Prefix, L, R>(tl: Seq<Node<P, L>>, tr: Seq<Node<P, R>>, xa: Seq<bool>, xb: Seq<bool>, cs: Seq<Ent>, j: int)
+    requires twf(tl), twf(tr), df_post(tl, tr, xa, xb, Seq::<bool>::empty(), false, cs), 0 <= j < cs.len()
+    ensures vlpm(tr, xb, ent_key(tl, tr, cs[j]), ann::<P, R>(tr, ent_r(cs[j]), None))
+{
+    let kc = ent_key(tl, tr, cs[j]);
+    lemma_between_d(tl, tr, xa, xb, Seq::<bool>::empty(), false, cs, j);
+    lemma_ent_at(tl, tr, xa, xb, cs[j]);
+    lemma_lpm_init(tr, xb, kc, ent_r(cs[j]));
+}
+
+/// no entry of view (t, x) is stored strictly above key k
+pub open spec fn nocov_above<P: Prefix, T>(t: Seq<Node<P, T>>, x: Seq<bool>, k: Seq<bool>) -> bool {
+    forall|m: int| #![trigger tlive(t).contains(m)] vin(t, x, m) && spre(kb(t, m), k) ==> t[m].value.is_none()
+}
+
+/// [C07] covering difference: below a popped entry whose key is not covered, the pushed entries are not covered from strictly above either
+pub proof fn lemma_nocov_child<P: Prefix, L, R>(tl: Seq<Node<P, L>>, tr: Seq<Node<P, R>>, xa: Seq<bool>, xb: Seq<bool>, x: Seq<bool>, cs: Seq<Ent>, j: int)
+    requires
+        twf(tl), twf(tr), df_post(tl, tr, xa, xb, x, true, cs), 0 <= j < cs.len(),
+        nocov_above(tr, xb, x), !stored_in(tr, xb, x),
+    ensures nocov_above(tr, xb, ent_key(tl, tr, cs[j]))
+{
+    let kc = ent_key(tl, tr, cs[j]);
+    lemma_between_d(tl, tr, xa, xb, x, true, cs, j);
+    lemma_ent_at(tl, tr, xa, xb, cs[j]);
+    assert forall|m: int| #![trigger tlive(tr).contains(m)] vin(tr, xb, m) && spre(kb(tr, m), kc) implies tr[m].value.is_none() by {
+        lemma_pre_comparable(kb(tr, m), x, kc);
+        if spre(kb(tr, m), x) {
+        } else if kb(tr, m) =~= x {
+        } else {
+            assert(spre(x, kb(tr, m)));
+            assert(ent_r(cs[j]).is_some() && ent_r(cs[j]).unwrap() as int == m);
+        }
+    }
+}
+
+pub proof fn lemma_nocov_init<P: Prefix, L, R>(tl: Seq<Node<P, L>>, tr: Seq<Node<P, R>>, xa: Seq<bool>, xb: Seq<bool>, cs: Seq<Ent>, j: int)
+    requires twf(tl), twf(tr), df_post(tl, tr, xa, xb, Seq::<bool>::empty(), false, cs), 0 <= j < cs.len()
+    ensures nocov_above(tr, xb, ent_key(tl, tr, cs[j]))
+{
+    let kc = ent_key(tl, tr, cs[j]);
+    lemma_between_d(tl, tr, xa, xb, Seq::<bool>::empty(), false, cs, j);
+    lemma_ent_at(tl, tr, xa, xb, cs[j]);
+    assert forall|m: int| #![trigger tlive(tr).contains(m)] vin(tr, xb, m) && spre(kb(tr, m), kc) implies tr[m].value.is_none() by {
+        assert(ent_r(cs[j]).is_some() && ent_r(cs[j]).unwrap() as int == m);
+    }
+}
+
 // ---- one-sided descent, mirrored: the right view's node r is strictly above the left view's node l (entry FirstR(l, r)) ----
 // (mechanical mirror image of the lemma_fl_* family, generated by tools/mirror_setops.py)
 
